@@ -18,7 +18,7 @@ if os.path.exists(os.path.join(src, "meta.json")):
         meta = {"note": "sub-agent meta.json unreadable"}
 meta["property"] = sid
 meta["confirmed_by_me"] = {
-    "commands": [f"py/verify_seed.sh {sid} {pkg} '{rex}'  (scratch worktree /tmp/wt-{sid})"],
+    "commands": [f"py/verify_seed.sh {sid} {pkg} '{rex}'  (scratch worktree /tmp/wt2-{sid})"],
     "build_with_patch": "ok", "demo_with_patch": "FAIL (as required)", "demo_without_patch": "PASS",
     "other_tests_of_package_with_patch": "PASS",
 }
